@@ -112,7 +112,7 @@ def mutate(s):
     if r < 0.62: return s[:i] + rnd.choice(INSERT) + s[i:]
     if r < 0.8: return s[:i] + rnd.choice(INSERT) + s[i + 1:]
     # token-level edits
-    t = rnd.choice(['leadzero', 'negzero', 'bigint', 'dropparen', 'opswap', 'fnname', 'dropquote', 'lonesurr', 'ctl', 'illtyped', 'cmpnonsing', 'trailing', 'leading'])
+    t = rnd.choice(['leadzero', 'negzero', 'bigint', 'dropparen', 'opswap', 'fnname', 'dropquote', 'lonesurr', 'ctl', 'illtyped', 'illtyped', 'illtyped', 'cmpnonsing', 'cmpnonsing', 'trailing', 'leading'])
     if t == 'leadzero': return s.replace('[1', '[01', 1).replace(':1', ':01', 1) if ('[1' in s or ':1' in s) else s + '[01]'
     if t == 'negzero': return s + '[-0]'
     if t == 'bigint': return s + rnd.choice(['[%d]' % (M + 1), '[%d]' % (-M - 1), '[:%d]' % (M + 1), '[?@[%d]==1]' % (M + 1), '[18446744073709551616]'])
@@ -122,7 +122,18 @@ def mutate(s):
     if t == 'dropquote': return s.replace("'", '', 1) if "'" in s else s + "['a]"
     if t == 'lonesurr': return s + "['" + BS + "u" + rnd.choice(['D800', 'DC00', 'd83d', 'DFFF']) + rnd.choice(['', 'x', BS + 'u0041']) + "']"
     if t == 'ctl': return s + "['" + rnd.choice(['\x01', '\x1f', BS + 'T', '\x7f']) + "']"
-    if t == 'illtyped': return s + rnd.choice(['[?length(@.*)==1]', '[?count(1)==1]', '[?count(@.a)]', '[?value(@..a)]', '[?length(@)]', '[?match(@.*,"a")]', '[?match(@,"a")==true]', '[?length(@,@)==1]', '[?count()==1]', '[?search(@)]', '[?length(match(@,"a"))==1]', '[?value(length(@))==1]', '[?!length(@)]'])
+    if t == 'illtyped':
+        # every way of breaking the type rules of RFC 9535 2.4.3, with both roots
+        X = rnd.choice(['@', '$'])
+        nonsing = X + rnd.choice(['.*', '..a', '[0,1]', '[0:1]', '[?@.a]', '[*]', "['a','b']", '.a.*', '.a[1:]', '..[0]'])
+        logical = rnd.choice(["match(@,'a')", "search(@.a,'b')", "match($.a, @.b)"])
+        valuef = rnd.choice(['length(@)', 'count(@.*)', 'value(@.a)', 'length($.a)', 'count($..a)'])
+        forms = ['[?length(%s)==1]' % nonsing, "[?match(%s,'a')]" % nonsing, "[?match(@.a,%s)]" % nonsing, "[?search(%s,'a')]" % nonsing, "[?search(@,%s)]" % nonsing,
+                 '[?count(%s)==1]' % rnd.choice(['1', "'a'", 'true', 'null', valuef, logical]), '[?value(%s)==1]' % rnd.choice(['1', "'a'", 'null', valuef, logical]),
+                 '[?length(%s)==1]' % logical, "[?match(@,%s)]" % logical, '[?%s==true]' % logical, '[?1==%s]' % logical, '[?%s!=%s]' % (logical, logical),
+                 '[?%s]' % valuef, '[?!%s]' % valuef, '[?@.a && %s]' % valuef, '[?(%s)]' % valuef,
+                 '[?length(@,@)==1]', '[?count()==1]', '[?search(@)]', "[?match(@,'a','b')]", '[?value()==1]', '[?length()==1]', '[?length(@.a,)==1]', '[?in(@)]'.replace('in', 'length')]
+        return s + rnd.choice(forms)
     if t == 'cmpnonsing': return s + rnd.choice(['[?@.*==1]', '[?@..a==1]', '[?@[0,1]==1]', '[?@[0:1]==1]', '[?@[?@.a]==1]', '[?1==$..a]', '[?(@.a)==1]', '[?@.a==(1)]', '[?!@.a==1]', '[?1]', "[?'a']", '[?true]', '[?null==null]'])
     if t == 'trailing': return s + rnd.choice([' ', BS + 'T', BS + 'N', '.', '..', '[', ',', ' '])
     return rnd.choice([' ', BS + 'N', ' ', '$']) + s
